@@ -213,7 +213,13 @@ def preserve_src_digest():
 
 # digests of the code the hand-written model was last validated against (drift sentinel: a change
 # escalates the quick run to the thorough case counts, it is never a verdict by itself)
-VALIDATED_DIGESTS = {}
+VALIDATED_DIGESTS = {
+    "_PreserveConstantsOrdering": "b30fd5f083b5ac3e", "IsNamedTuple": "2c51335adc86130b",
+    "Node.__lt__": "539b6012c08ea83d", "Node._ToTuple": "01a89a67d14d4559", "_VisitNode": "852e9c047053cec8",
+    "_FlattenTypes": "9b0721e7129b9309", "unique_sorted_errors": "f2c89dab3463b4d9",
+    "_sorted_errors": "1ca6086aa54f4730", "_compare_traceback_strings": "7ab251261957b7a2",
+    "get_unique_representation": "5b37ea4acf7d2849", "_position": "aab52cfaf70cf2ac",
+}
 
 
 # --------------------------------------------------------------------------------------------
@@ -237,107 +243,82 @@ def _key_equal(a, b):
   return not (a < b) and not (b < a)
 
 
-def monitor(unit, visitor_names, canonical):
-  """Checks, on a real tree, the hypotheses the theorems make about implementation outputs.
+def monitor(inp, outp, visitor_names):
+  """Checks, on real trees, the hypotheses the theorems make about implementation outputs.
 
-  canonical=False: `unit` is an input of CanonicalOrderingVisitor; children are canonicalised first
-  (with the real visitor) before the sibling checks, exactly as `keys_separate` is phrased.
-  Returns a list of (kind, path, detail) problems."""
+  `inp` is what was handed to CanonicalOrderingVisitor, `outp` what it returned.  `keys_separate inp` talks
+  about the *visited* children of every node the visitor reaches; those are exactly the items of the
+  corresponding tuples of `outp` (for set-types: minus the ==-duplicates _FlattenTypes dropped, which the
+  input-side check covers).  So:
+    on inp : no sorted class below a class the visitor skips; set-types are normalised (flat, fixed by
+             _FlattenTypes); members that are == are identical after canonicalisation (eq_separated)
+    on outp: every sorted tuple is in nondecreasing order; sort-key-equal neighbours are identical
+             (key_separated - key-equality is an equivalence, so neighbours suffice); only Nodes / str slots
+  Returns (problems, stats); a problem is (kind, path, detail)."""
   pytd = _pytd()
   from pytype.pytd import pytd_visitors  # pylint: disable=import-outside-toplevel
   problems = []
-  stats = {"sorted_tuples": 0, "sibling_pairs": 0, "set_types": 0, "nodes": 0}
+  stats = {"sorted_tuples": 0, "sibling_pairs": 0, "key_equal_pairs": 0, "set_types": 0, "nodes": 0}
+  visitor = pytd_visitors.CanonicalOrderingVisitor
 
-  def canon(x):
-    if canonical or not isinstance(x, (pytd.Node, tuple)):
-      return x
-    if isinstance(x, tuple):
-      return tuple(canon(c) for c in x)
-    return x.Visit(pytd_visitors.CanonicalOrderingVisitor())
-
-  def walk(x, path, below_unvisited):
+  def walk(x, path, below_unvisited, is_out):
     if isinstance(x, tuple):
       for i, c in enumerate(x):
-        walk(c, path + "[%d]" % i, below_unvisited)
+        walk(c, path + "[%d]" % i, below_unvisited, is_out)
       return
     if not isinstance(x, pytd.Node) or isinstance(x, pytd.ClassType):
       return
-    stats["nodes"] += 1
     cn = type(x).__name__
-    if below_unvisited and cn in SORTED_CLASSES:
-      problems.append(("unreached-sorted-class", path, "%s below %s" % (cn, below_unvisited)))
+    if not is_out:
+      stats["nodes"] += 1
+      if below_unvisited and cn in SORTED_CLASSES:
+        problems.append(("unreached-sorted-class", path, "%s below %s" % (cn, below_unvisited)))
     unvis = below_unvisited or (None if cn in visitor_names else cn)
     if isinstance(x, pytd._SetOfTypes):  # pylint: disable=protected-access
-      stats["set_types"] += 1
       tl = x.type_list
-      if tuple(pytd._FlattenTypes(tl)) != tuple(tl) or any(a is not b for a, b in zip(pytd._FlattenTypes(tl), tl)):  # pylint: disable=protected-access
-        problems.append(("set-not-normal", path, repr(x)[:300]))
-      members = [canon(m) for m in tl]
-      for i, a in enumerate(members):
+      if not is_out:
+        stats["set_types"] += 1
+        ft = pytd._FlattenTypes(tl)  # pylint: disable=protected-access
+        if len(ft) != len(tl) or any(a is not b for a, b in zip(ft, tl)):
+          problems.append(("set-not-normal", path, repr(x)[:300]))
+      for i, a in enumerate(tl):
         if isinstance(a, pytd._SetOfTypes):  # pylint: disable=protected-access
           problems.append(("set-not-flat", path, repr(x)[:300]))
-        for b in members[i + 1:]:
-          if a == b and proj(a, True) != proj(b, True):
-            problems.append(("eq-not-separated", path, "%r == %r" % (a, b)))
+        for b in tl[i + 1:]:
+          if a == b:
+            ca, cb = (a, b) if is_out else (a.Visit(visitor()), b.Visit(visitor()))
+            if proj(ca, True) != proj(cb, True):
+              problems.append(("eq-not-separated", path, "%r == %r" % (a, b)))
     preserve = False
     if cn == "Class":
-      preserve = pytd_visitors.CanonicalOrderingVisitor()._PreserveConstantsOrdering(x)  # pylint: disable=protected-access
+      preserve = visitor()._PreserveConstantsOrdering(x)  # pylint: disable=protected-access
     for fname in x.__struct_fields__:
       child = getattr(x, fname)
       if fname == "_name2item":
         continue
-      if isinstance(child, tuple) and is_sorted_field(x, fname, preserve) and unvis is None:
+      if is_out and isinstance(child, tuple) and is_sorted_field(x, fname, preserve) and unvis is None:
         stats["sorted_tuples"] += 1
-        items = [canon(c) for c in child]
-        for it in items:
+        for it in child:
           if not (isinstance(it, pytd.Node) or (fname == "slots" and isinstance(it, str))):
             problems.append(("unsortable-item", path + "." + fname, repr(it)[:200]))
-        # key-equal siblings must be identical.  O(n log n): sort with the implementation's own
-        # order and compare neighbours (key-equality is an equivalence when __lt__ is a strict weak order).
-        try:
-          srt = sorted(items)
-        except TypeError as e:
-          problems.append(("unsortable-item", path + "." + fname, str(e)))
-          srt = []
-        for a, b in zip(srt, srt[1:]):
-          stats["sibling_pairs"] += 1
-          if _key_equal(a, b) and repr(a) != repr(b) or (_key_equal(a, b) and proj(a, True) != proj(b, True)):
-            problems.append(("keys-not-separate", path + "." + fname,
-                             "sort-key-equal but different siblings: %s  |  %s" % (repr(a)[:400], repr(b)[:400])))
-      walk(child, path + "." + fname, unvis)
-
-  walk(unit, "", None)
-  return problems, stats
-
-
-def is_canonical(unit):
-  """Every sorted tuple of a tree that claims to be canonical is in nondecreasing order (real __lt__)."""
-  pytd = _pytd()
-  from pytype.pytd import pytd_visitors  # pylint: disable=import-outside-toplevel
-  bad = []
-
-  def walk(x, path):
-    if isinstance(x, tuple):
-      for i, c in enumerate(x):
-        walk(c, path + "[%d]" % i)
-      return
-    if not isinstance(x, pytd.Node) or isinstance(x, pytd.ClassType):
-      return
-    preserve = False
-    if type(x).__name__ == "Class":
-      preserve = pytd_visitors.CanonicalOrderingVisitor()._PreserveConstantsOrdering(x)  # pylint: disable=protected-access
-    for fname in x.__struct_fields__:
-      if fname == "_name2item":
-        continue
-      child = getattr(x, fname)
-      if isinstance(child, tuple) and is_sorted_field(x, fname, preserve):
         for a, b in zip(child, child[1:]):
-          if b < a:
-            bad.append(path + "." + fname)
-            break
-      walk(child, path + "." + fname)
-  walk(unit, "")
-  return bad
+          stats["sibling_pairs"] += 1
+          try:
+            if b < a:
+              problems.append(("not-canonical", path + "." + fname, "%s after %s" % (repr(b)[:200], repr(a)[:200])))
+            elif not a < b:
+              stats["key_equal_pairs"] += 1
+              same = (a == b) if isinstance(a, str) else proj(a, True) == proj(b, True)
+              if not same:
+                problems.append(("keys-not-separate", path + "." + fname,
+                                 "sort-key-equal but different siblings: %s  |  %s" % (repr(a)[:400], repr(b)[:400])))
+          except TypeError as e:
+            problems.append(("unsortable-item", path + "." + fname, str(e)))
+      walk(child, path + "." + fname, unvis, is_out)
+
+  walk(inp, "", None, False)
+  walk(outp, "", None, True)
+  return problems, stats
 
 
 # --------------------------------------------------------------------------------------------
